@@ -13,8 +13,9 @@
     within `cap` silently hands out foreign bytes, `validate` is separate, Go's `int` has a width.
     Theorems 9–14 are about this model and connect it to the abstract one: no panic, no content from
     beyond `len` or beyond the declared extent of a structure, for `int` of 34 bits or more; a PANIC WITNESS
-    for 32-bit `int` (genuine defect of the library on GOARCH=386/arm); the repaired `validate` on every
-    platform.
+    for 32-bit `int` (a genuine defect of the library on GOARCH=386/arm until its repair e776a13; theorems
+    11–13 are stated for that pre-repair variant, `wide = false`); the repaired `validate` — the current code,
+    `wide = true` — on every platform (theorems 14, 14a, 14b).
 
   Termination: the recursive definitions carry a fuel argument. Theorems F1–F4 show that for EVERY input
   the fuel used by the model (`bs.length`, `bs.length + 2`) is never what ends a computation (no
@@ -151,7 +152,8 @@ theorem struct_capacity_clipped {α : Type} (cfg : GoCfg) (b : GoSlice) (tag : N
       = G.struct cfg b tag (fun inner => if inner.rest = [] then f inner else .panic "capacity not clipped") :=
   G.struct_inner_clipped cfg b tag f
 
-/-- 11. `UnmarshalTTLV(data, &ttlv.Value{})` over the slice-level reader, on a platform whose `int` has at
+/-- 11. `UnmarshalTTLV(data, &ttlv.Value{})` over the slice-level reader with the pre-repair `validate`
+    (`wide = false`; at 64 bits it computes what the current code computes), on a platform whose `int` has at
     least 34 bits: for EVERY byte string and EVERY content of the memory between `len(data)` and `cap(data)`
     the result is the abstract decoder's result on `data[0:len]` — -/
 theorem slice_level_refines (cfg : GoCfg) (hw : cfg.wide = false) (hb : 34 ≤ cfg.intBits) (bs junk : Bytes) :
@@ -206,8 +208,10 @@ theorem wide_validate_any_platform (cfg : GoCfg) (hw : cfg.wide = true) (hb : 1 
   (G.unmarshalValue_sim cfg _ (GoCfg.ok_wide cfg hw hb _ hlen)).eq (unmarshalValue_noPanic bs)
 
 /-- 14a. THE READER AS IT IS IN THE LIBRARY since its repair (ovh/kmip-go e776a13: `validate` compares the
-    declared length in 64 bits, i.e. `wide = true`; the engines `hostile` (phase arch32, a GOARCH=386 build) and
-    `wire`/`plan` tie this variant to the code): on EVERY platform no index or slice expression panics, -/
+    declared length in 64 bits, i.e. `wide = true`; the engine `hostile` ties this variant to the code by
+    outcome class at 32 bits (phase arch32, a GOARCH=386 build, lines `rdr.cls32w`), the value-level lines
+    `rdr.dec` run the `wide = false` variant at 64 bits, where both variants agree; `wire`/`plan` compare the
+    abstract model): on EVERY platform no index or slice expression panics, -/
 theorem current_reader_no_panic (cfg : GoCfg) (hw : cfg.wide = true) (hb : 1 ≤ cfg.intBits) (bs junk : Bytes)
     (hlen : bs.length < 2 ^ (cfg.intBits - 1)) :
     ∀ msg, G.unmarshalValue cfg { vis := bs, rest := junk } ≠ .panic msg := by
